@@ -165,6 +165,15 @@ Theorem C14_lists_exact_when_static :
     list_ok (served, must_of [v], may_of [v]) = true -> forall x, In x served <-> In x v.
 Proof. exact list_ok_static. Qed.
 
+(** ** WaitTrigger requests that really wait (stream `c14race`, C14/Lists.v [wait_ok] evaluated on every such
+    request): an answer that arrives before the timeout (by more than the margin) shows the object waited for with a
+    version that satisfies the WaitCondition *)
+Theorem C14_wait_answer_meets_condition :
+  forall elapsed timeout margin threshold served : Z,
+    wait_ok [elapsed; timeout; margin; threshold; served] = true ->
+    (0 <= served -> elapsed + margin < timeout -> threshold <= served)%Z.
+Proof. exact wait_ok_spec. Qed.
+
 (** ** non-vacuity *)
 
 Example C14_example :
@@ -200,7 +209,10 @@ Example C14_lock_matrix_example :
   (* lists: the empty list of a data set published before its lists were rebuilt, a list with a foreign entry *)
   list_ok ([], must_of [[1; 4]; [1; 4; 1000]], may_of [[1; 4]; [1; 4; 1000]])%Z = false /\
   list_ok ([1; 4; 7], must_of [[1; 4]], may_of [[1; 4]])%Z = false /\
-  list_ok ([4; 1], must_of [[1; 4]; [1; 4; 1000]], may_of [[1; 4]; [1; 4; 1000]])%Z = true.
+  list_ok ([4; 1], must_of [[1; 4]; [1; 4; 1000]], may_of [[1; 4]; [1; 4; 1000]])%Z = true /\
+  (* waits: released after 600 of 1800 ms with the row of the replaced object set; with the new check result; timed out *)
+  wait_ok [600; 1800; 300; 1035; 45]%Z = false /\ wait_ok [600; 1800; 300; 1035; 1036]%Z = true /\
+  wait_ok [1800; 1800; 300; 1035; 45]%Z = true.
 Proof. vm_compute. repeat split. Qed.
 
 Print Assumptions C14_reader_sees_batch_boundary.
@@ -218,3 +230,4 @@ Print Assumptions C14_lock_matrix_readers_safe.
 Print Assumptions C14_lock_matrix_covers_schema.
 Print Assumptions C14_lists_complete_in_window.
 Print Assumptions C14_lists_exact_when_static.
+Print Assumptions C14_wait_answer_meets_condition.
